@@ -66,8 +66,9 @@ fn decode(ctx: &Ctx, tape: &[u32], disk: Option<DiskCfg>) -> OrdCase {
         }
     }
     OrdCase {
-        sql_base: query.print_opts(Dialect::Rl, false, false),
-        sql_ordered: query.print_opts(Dialect::Rl, true, false),
+        // ORDER BY keys outside the select list are made visible in the first two variants
+        sql_base: query.augmented().print_opts(Dialect::Rl, false, false),
+        sql_ordered: query.augmented().print_opts(Dialect::Rl, true, false),
         sql_full: query.print(Dialect::Rl),
         db,
         post,
@@ -144,7 +145,13 @@ fn test(ctx: &Ctx, case: &OrdCase, st: &mut Stats) -> Verdict {
             }
         }
         let _ = take_panics();
-        let q = &case.query;
+        // `q`: the query with every ORDER BY key selected (variants 1 and 2); the complete variant
+        // is the original query, whose rows are the first `n` columns
+        let aug = case.query.augmented();
+        let q = &aug;
+        let n = case.query.select.len();
+        let hidden = !case.query.order_extra.is_empty();
+        let cut = |rows: &[Row]| -> Vec<Row> { rows.iter().map(|r| r[..n.min(r.len())].to_vec()).collect() };
         let base = exec(&db, &case.sql_base).await;
         let ordered = exec(&db, &case.sql_ordered).await;
         let full = exec(&db, &case.sql_full).await;
@@ -154,6 +161,14 @@ fn test(ctx: &Ctx, case: &OrdCase, st: &mut Stats) -> Verdict {
             (Out::Rejected(_), _, _) => Verdict::Discard("query rejected by the binder"),
             (Out::Rows(r0), Out::Rows(r1), Out::Rows(r2)) => {
                 let has_order = !q.order_by.is_empty();
+                if hidden {
+                    st.class("order-by-non-selected");
+                }
+                // keys of a result of the complete variant: only the selected keys are visible
+                let vis: Vec<(usize, bool)> = case.query.order_by.clone();
+                let vkeys = |rows: &[Row]| -> Vec<Row> { rows.iter().map(|r| vis.iter().map(|(i, _)| r[*i].clone()).collect()).collect() };
+                // is the order total on the ordered result (ties only between equal visible rows)?
+                let total = has_order && r1.windows(2).all(|w| cmp_keys(q, &w[0], &w[1]) != Ordering::Equal || w[0][..n] == w[1][..n]);
                 let limited = q.limit.is_some() || q.offset.is_some();
                 if has_order {
                     st.class("order-by");
@@ -192,16 +207,21 @@ fn test(ctx: &Ctx, case: &OrdCase, st: &mut Stats) -> Verdict {
                     };
                     if r2.len() != expect {
                         err = Some(("limit:count", format!("LIMIT {:?} OFFSET {:?} over {} rows returned {} rows, expected {}", q.limit, q.offset, n_total, r2.len(), expect)));
-                    } else if !included(r2, r0) {
+                    } else if !included(r2, &cut(r0)) {
                         err = Some(("limit:invented-rows", format!("limited rows are not part of the full result: {}", fmt_rows(r2))));
                     } else if has_order {
-                        let k1 = keys(q, r1);
+                        let k1 = vkeys(r1);
                         let slice: Vec<Row> = k1.iter().skip(m).take(expect).cloned().collect();
-                        if keys(q, r2) != slice {
-                            err = Some(("limit:wrong-slice", format!("keys of the limited result {} are not rows {}..{} of the ordered result {}", fmt_rows(&keys(q, r2)), m, m + expect, fmt_rows(&k1))));
+                        let rows_slice: Vec<Row> = cut(r1).into_iter().skip(m).take(expect).collect();
+                        if vkeys(r2) != slice {
+                            err = Some(("limit:wrong-slice", format!("keys of the limited result {} are not rows {}..{} of the ordered result {}", fmt_rows(&vkeys(r2)), m, m + expect, fmt_rows(&k1))));
+                        } else if total && *r2 != rows_slice {
+                            err = Some(("limit:wrong-rows", format!("the order is total, but the limited result {} is not rows {}..{} of the ordered result {}", fmt_rows(r2), m, m + expect, fmt_rows(&cut(r1)))));
                         }
                     }
-                } else if err.is_none() && has_order && keys(q, r2) != keys(q, r1) {
+                } else if err.is_none() && has_order && total && *r2 != cut(r1) {
+                    err = Some(("order:hidden-key", format!("the order is total, but the query ordered by non-selected keys returned {} and not {}", fmt_rows(r2), fmt_rows(&cut(r1)))));
+                } else if err.is_none() && has_order && vkeys(r2) != vkeys(r1) {
                     err = Some(("order:unstable", "the same ordered query returned different key sequences".to_string()));
                 }
                 match err {
